@@ -10,20 +10,24 @@
 EXTENDS Values
 
 N(e) == Len(e.vals)
+SameBinaryNoneHolds(e, i, j) == Has(e, "sb") /\ e.sb[i][j] /\ i # j /\ e.vals[i].st = "k" /\ e.vals[j].st = "k"
+                                /\ e.eq[i][j] = "F" /\ e.lt[i][j] = "F" /\ e.gt[i][j] = "F"
 EqGroupFailed(e) ==
   LET n == N(e) I == 1..n IN
   {x \in {"C03.RawReflexive", "C03.RawSymmetric", "C03.RawTransitive", "C03.SameAbstractIsEqual", "C03.EqualsSymmetric",
-          "C03.NullsEqual", "C03.EqualsIffRaw", "C03.Trichotomy", "C03.EqImpliesSameHash", "C03.NoPanic"} :
+          "C03.NullsEqual", "C03.EqualsIffRaw", "C03.Trichotomy", "C03.Trichotomy.EqualBinaryValueUnequalText", "C03.EqImpliesSameHash", "C03.NoPanic"} :
     CASE x = "C03.RawReflexive" -> \E i \in I : ~e.raw[i][i]
       [] x = "C03.RawSymmetric" -> \E i, j \in I : e.raw[i][j] # e.raw[j][i]
       [] x = "C03.RawTransitive" -> \E i, j \in I : e.raw[i][j] /\ \E k \in I : e.raw[j][k] /\ ~e.raw[i][k]
-      [] x = "C03.SameAbstractIsEqual" -> \E i, j \in I : e.vals[i] = e.vals[j] /\ ~e.raw[i][j]
+      [] x = "C03.SameAbstractIsEqual" -> \E i, j \in I : e.vals[i] = e.vals[j] /\ ~e.raw[i][j] /\ ~SameBinaryNoneHolds(e, i, j)
       [] x = "C03.EqualsSymmetric" -> \E i, j \in I : e.eq[i][j] # e.eq[j][i]
       [] x = "C03.NullsEqual" -> \E i, j \in I : e.vals[i].st = "null" /\ e.vals[j].st = "null" /\ e.eq[i][j] # "T"
       [] x = "C03.EqualsIffRaw" -> \E i, j \in I : WhollyKnown(e.vals[i]) /\ WhollyKnown(e.vals[j]) /\ TEquals(e.vals[i].ty, e.vals[j].ty)
                                                    /\ e.eq[i][j] # (IF e.raw[i][j] THEN "T" ELSE "F")
       [] x = "C03.Trichotomy" -> \E i, j \in I : e.vals[i].ty.k = "number" /\ e.vals[i].st = "k" /\ e.vals[j].ty.k = "number" /\ e.vals[j].st = "k"
-                                                 /\ Cardinality({y \in {"eq", "lt", "gt"} : e[y][i][j] = "T"}) # 1
+                                                 /\ Cardinality({y \in {"eq", "lt", "gt"} : e[y][i][j] = "T"}) # 1 /\ ~SameBinaryNoneHolds(e, i, j)
+      \* the same binary value held at two precisions whose shortest decimal texts differ: neither equal nor ordered (recorded finding)
+      [] x = "C03.Trichotomy.EqualBinaryValueUnequalText" -> \E i, j \in I : SameBinaryNoneHolds(e, i, j)
       [] x = "C03.EqImpliesSameHash" -> \E i, j \in I : e.raw[i][j] /\ ~e.hash[i][j]
       [] x = "C03.NoPanic" -> \E i, j \in I : e.eq[i][j] = "P" \/ (e.vals[i].ty.k = "number" /\ e.vals[i].st = "k" /\ e.vals[j].ty.k = "number" /\ e.vals[j].st = "k" /\ (e.lt[i][j] = "P" \/ e.gt[i][j] = "P"))}
 
